@@ -384,6 +384,19 @@ class CallGraph:
             return Site(call, f, ga, 'model:getattr')
         if isinstance(fn, ast.Name):
             # local callable variable
+            # by-name models
+            if f.qn == 'pydoctor.extensions.load_extension_module' and fn.id not in [p.arg for p in f.params()] and \
+                    not r.resolve(f.mod, fn.id, None):
+                # the callable looked up on a dynamically imported extension module
+                out2 = [g for g in r.funcs.values() if g.name == 'setup_pydoctor_extension' and g.cls is None and g.outer is None]
+                self.models['setup_pydoctor_extension'] = len(out2)
+                return Site(call, f, out2, 'model:extension-setup')
+            if f.cls is not None and f.cls.name == 'PriorityProcessor' and fn.id not in [p.arg for p in f.params()] and \
+                    not r.resolve(f.mod, fn.id, None):
+                # a callable taken out of the list filled by register_post_processor
+                out3 = self._registered('register_post_processor')
+                self.models['post-processors'] = len(out3)
+                return Site(call, f, out3, 'model:post-processor')
             vals = self._local_values(fn.id, f)
             if vals:
                 out: List[Func] = []
@@ -419,15 +432,6 @@ class CallGraph:
                 if modelled:
                     self.models['local-callable'] = self.models.get('local-callable', 0) + 1
                     return Site(call, f, out, 'model:local')
-            # by-name models
-            if fn.id == 'setup_pydoctor_extension' and not r.resolve(f.mod, fn.id, None):
-                out2 = [g for g in r.funcs.values() if g.name == 'setup_pydoctor_extension' and g.cls is None and g.outer is None]
-                self.models['setup_pydoctor_extension'] = len(out2)
-                return Site(call, f, out2, 'model:extension-setup')
-            if fn.id == 'post_processor' and f.cls is not None and f.cls.name == 'PriorityProcessor':
-                out3 = self._registered('register_post_processor')
-                self.models['post-processors'] = len(out3)
-                return Site(call, f, out3, 'model:post-processor')
             # parameter of the enclosing function (or of an outer function)
             g0: Optional[Func] = f
             while g0 is not None:
